@@ -34,12 +34,21 @@ MAX_STMTS = 60
 
 
 def protected_names():
+    """Names the rule modules anchor on: every identifier inside a string constant of /verif/rules/*.py that is itself a
+    (dotted, optionally module-qualified) name - "torrentfile.utils:_filelist_total", "assemble", "Hasher.__next__"."""
     here = os.path.join(os.path.dirname(os.path.dirname(os.path.abspath(__file__))), "rules")
     names = set()
     for fn in sorted(os.listdir(here)):
-        if fn.endswith(".py"):
-            with open(os.path.join(here, fn), encoding="utf-8") as fh:
-                names.update(re.findall(r"[A-Za-z_][A-Za-z0-9_]*", fh.read()))
+        if not fn.endswith(".py"):
+            continue
+        with open(os.path.join(here, fn), encoding="utf-8") as fh:
+            try:
+                tree = ast.parse(fh.read())
+            except SyntaxError:
+                continue
+        for n in ast.walk(tree):
+            if isinstance(n, ast.Constant) and isinstance(n.value, str) and re.fullmatch(r"[A-Za-z_][A-Za-z_0-9.]*(:[A-Za-z_0-9.<>]+)?", n.value):
+                names.update(re.findall(r"[A-Za-z_][A-Za-z0-9_]*", n.value))
     return names
 
 
@@ -85,12 +94,91 @@ def _all_names(fnode):
     return out | _stored_names(fnode) | {x.id for x in ast.walk(fnode) if isinstance(x, ast.Name)}
 
 
+def _simple_target(t):
+    if isinstance(t, ast.Name):
+        return True
+    if isinstance(t, ast.Attribute):
+        return _simple_target(t.value)
+    if isinstance(t, ast.Subscript):
+        return _simple_target(t.value) and isinstance(t.slice, ast.Constant)
+    return False
+
+
+class _YieldToAppend(ast.NodeTransformer):
+    def __init__(self, target):
+        self.target = target
+
+    def visit_Expr(self, n):
+        if isinstance(n.value, ast.Yield):
+            recv = copy.deepcopy(self.target)
+            for x in ast.walk(recv):
+                if hasattr(x, "ctx"):
+                    x.ctx = ast.Load()
+            call = ast.Call(func=ast.Attribute(value=recv, attr="append", ctx=ast.Load()), args=[n.value.value], keywords=[])
+            return ast.copy_location(ast.Expr(value=ast.copy_location(call, n)), n)
+        return self.generic_visit(n)
+
+
 def _simple_arg(a, deep=False):
     if isinstance(a, (ast.Name, ast.Constant)):
         return True
     if deep and isinstance(a, ast.Attribute):
         return _simple_arg(a.value, True)
     return False
+
+
+def _has_return(stmts):
+    return any(isinstance(x, ast.Return) for st in stmts for x in ast.walk(st))
+
+
+def _terminates(stmts):
+    """Every path through the statement list ends in a return (structured code: last statement a return, or an if whose
+    two branches both terminate)."""
+    if not stmts:
+        return False
+    last = stmts[-1]
+    if isinstance(last, ast.Return):
+        return True
+    if isinstance(last, ast.If):
+        return _terminates(last.body) and _terminates(last.orelse)
+    return False
+
+
+def _eliminate_returns(stmts, on_return):
+    """Rewrite a structured statement list so that it contains no return: `return E` becomes on_return(E) (a list of
+    statements, possibly empty) and what followed an `if` with a returning branch moves into the branch that continues.
+    None when a return sits where this cannot be done without copying statements (inside a loop, with, try; an if of which
+    a branch returns only on some of its paths)."""
+    out = []
+    for i, st in enumerate(stmts):
+        rest = stmts[i + 1:]
+        if isinstance(st, ast.Return):
+            out.extend(on_return(st))
+            return out          # anything after a return is dead
+        if not _has_return([st]):
+            out.append(st)
+            continue
+        if not isinstance(st, ast.If):
+            return None
+        a_term, b_term = _terminates(st.body), _terminates(st.orelse)
+        if a_term and b_term:
+            a, b = _eliminate_returns(st.body, on_return), _eliminate_returns(st.orelse, on_return)
+        elif a_term and not _has_return(st.orelse):
+            a, b = _eliminate_returns(st.body, on_return), _eliminate_returns(list(st.orelse) + rest, on_return)
+        elif b_term and not _has_return(st.body):
+            a, b = _eliminate_returns(list(st.body) + rest, on_return), _eliminate_returns(st.orelse, on_return)
+        elif len(_stmts(ast.Module(body=rest, type_ignores=[]))) <= 6:
+            # a branch returns on some of its paths only: what follows is copied into both branches (a few statements at most)
+            a = _eliminate_returns(list(st.body) + copy.deepcopy(rest), on_return)
+            b = _eliminate_returns(list(st.orelse) + rest, on_return)
+        else:
+            return None
+        if a is None or b is None:
+            return None
+        new = ast.copy_location(ast.If(test=st.test, body=a or [ast.copy_location(ast.Pass(), st)], orelse=b), st)
+        out.append(new)
+        return out
+    return out
 
 
 class _Helper:
@@ -127,13 +215,16 @@ class _Helper:
         for x in ast.walk(n):
             if x is n:
                 continue
-            if isinstance(x, (ast.Yield, ast.YieldFrom, ast.Await, ast.Global, ast.Nonlocal, ast.Lambda, ast.FunctionDef, ast.AsyncFunctionDef, ast.ClassDef)):
+            if isinstance(x, (ast.YieldFrom, ast.Await, ast.Global, ast.Nonlocal, ast.Lambda, ast.FunctionDef, ast.AsyncFunctionDef, ast.ClassDef)):
                 return False
             if isinstance(x, ast.Name) and x.id == self.name:
                 return False
             if isinstance(x, ast.Attribute) and x.attr == self.name:
                 return False
         if self.self_name and self.self_name in self.stored:
+            return False
+        self.is_gen = any(isinstance(x, ast.Yield) for x in ast.walk(n))
+        if self.is_gen and not self.listgen_form():
             return False
         return len(_stmts(n)) <= MAX_STMTS
 
@@ -149,13 +240,31 @@ class _Helper:
             return False
         return not any(isinstance(x, (ast.ListComp, ast.SetComp, ast.DictComp, ast.GeneratorExp, ast.NamedExpr)) for st in self.body for x in ast.walk(st))
 
+    def _structured(self):
+        """Returns can be eliminated: none inside a loop / with / try, guard-clause shape otherwise."""
+        probe = _eliminate_returns(copy.deepcopy(self.body), lambda r: [])
+        return probe is not None
+
     def stmt_form(self):
         vals = [r for r in self.returns if r.value is not None and not (isinstance(r.value, ast.Constant) and r.value.value is None)]
-        bare = [r for r in self.returns if r not in vals]
-        return not vals and all(r is self.body[-1] for r in bare)
+        return not vals and self._structured()
+
+    def listgen_form(self):
+        """A generator whose yields are plain statements `yield E` and that ends by falling off its body: list(H(...)) is
+        the list of the E's in the order of execution."""
+        ys = [x for x in ast.walk(self.node) if isinstance(x, (ast.Yield, ast.YieldFrom))]
+        if not ys or any(isinstance(y, ast.YieldFrom) or y.value is None for y in ys):
+            return False
+        stmts = {id(st.value) for st in ast.walk(self.node) if isinstance(st, ast.Expr)}
+        if any(id(y) not in stmts for y in ys):
+            return False
+        return all(r.value is None and r is self.body[-1] for r in self.returns)
 
     def assign_form(self):
-        return len(self.returns) == 1 and self.returns[0] is self.body[-1] and self.returns[0].value is not None
+        return bool(self.returns) and all(r.value is not None for r in self.returns) and _terminates(self.body) and self._structured()
+
+    def single_tail_return(self):
+        return len(self.returns) == 1 and self.returns[0] is self.body[-1]
 
 
 def _bind(h, call, caller_self):
@@ -205,7 +314,8 @@ def _instantiate(h, call, caller, caller_self, form, target=None):
         elif form == "expr":
             # an argument with possible effects may only be used once
             uses = sum(1 for x in ast.walk(h.node) if isinstance(x, ast.Name) and x.id == p and isinstance(x.ctx, ast.Load))
-            if uses > 1 or p in h.stored:
+            pure = not any(isinstance(x, (ast.Call, ast.Await, ast.Yield, ast.YieldFrom, ast.NamedExpr)) for x in ast.walk(a))
+            if (uses > 1 and not pure) or p in h.stored:
                 return None
             exprs[p] = a
         else:
@@ -218,7 +328,8 @@ def _instantiate(h, call, caller, caller_self, form, target=None):
     # `T = H(...)` with `return L` (L a local of H), or the same position by position for tuples: L simply *is* T
     keep_positions = None
     if form == "assign":
-        R = h.body[-1].value
+        same = len({ast.dump(r.value) for r in h.returns}) == 1
+        R = h.returns[0].value if same else None
         pairs = []
         if isinstance(target, ast.Name) and isinstance(R, ast.Name):
             pairs = [(target, R, None)]
@@ -251,18 +362,34 @@ def _instantiate(h, call, caller, caller_self, form, target=None):
             env[st.targets[0].id] = _Rename(names, dict(env)).visit(copy.deepcopy(st.value))
         return ast.copy_location(_Rename(names, env).visit(copy.deepcopy(h.body[-1].value)), call)
     body = [ren.visit(copy.deepcopy(st)) for st in h.body]
+    if form == "listgen":
+        if body and isinstance(body[-1], ast.Return):
+            body.pop()
+        y2a = _YieldToAppend(target)
+        body = [y2a.visit(st) for st in body]
+        first = ast.copy_location(ast.Assign(targets=[copy.deepcopy(target)], value=ast.List(elts=[], ctx=ast.Load()), lineno=call.lineno), call)
+        out = binds + [first] + body
+        for st in out:
+            ast.fix_missing_locations(st)
+        return out
     if form == "assign":
-        last = body.pop()
-        if keep_positions is None:
-            body.append(ast.copy_location(ast.Assign(targets=[copy.deepcopy(target)], value=last.value, lineno=last.lineno), last))
-        elif keep_positions and keep_positions != [None]:
-            tg = ast.Tuple(elts=[copy.deepcopy(target.elts[i]) for i in keep_positions], ctx=ast.Store())
-            vl = ast.Tuple(elts=[last.value.elts[i] for i in keep_positions], ctx=ast.Load())
-            if len(keep_positions) == 1:
-                tg, vl = tg.elts[0], vl.elts[0]
-            body.append(ast.copy_location(ast.Assign(targets=[tg], value=vl, lineno=last.lineno), last))
-    if form == "stmt" and body and isinstance(body[-1], ast.Return):
-        body.pop()
+        def on_return(last):
+            if keep_positions is None:
+                return [ast.copy_location(ast.Assign(targets=[copy.deepcopy(target)], value=last.value, lineno=last.lineno), last)]
+            if keep_positions and keep_positions != [None]:
+                tg = ast.Tuple(elts=[copy.deepcopy(target.elts[i]) for i in keep_positions], ctx=ast.Store())
+                vl = ast.Tuple(elts=[last.value.elts[i] for i in keep_positions], ctx=ast.Load())
+                if len(keep_positions) == 1:
+                    tg, vl = tg.elts[0], vl.elts[0]
+                return [ast.copy_location(ast.Assign(targets=[tg], value=vl, lineno=last.lineno), last)]
+            return []
+        body = _eliminate_returns(body, on_return)
+        if body is None:
+            return None
+    if form == "stmt":
+        body = _eliminate_returns(body, lambda r: [])
+        if body is None:
+            return None
     out = binds + body
     if not out:
         out = [ast.copy_location(ast.Pass(), call)]
@@ -344,8 +471,10 @@ def _one_pass(trees, protected):
         return None
     hnames = {h.name for h in helpers}
     # leaf first: a helper whose body calls another candidate waits for the next pass
-    helpers = [h for h in helpers if not any((isinstance(x, ast.Name) and x.id in hnames) or (isinstance(x, ast.Attribute) and x.attr in hnames) for x in ast.walk(h.node) if x is not h.node)]
-    for h in sorted(helpers, key=lambda x: (x.mod, x.node.lineno)):
+    def calls_candidate(h):
+        return any((isinstance(x, ast.Name) and x.id in hnames) or (isinstance(x, ast.Attribute) and x.attr in hnames) for x in ast.walk(h.node) if x is not h.node)
+    # (a helper that calls a candidate which cannot be dissolved is tried after the leaves)
+    for h in sorted(helpers, key=lambda x: (calls_candidate(x), x.mod, x.node.lineno)):
         t = trees[h.mod]
         parent = {}
         for n in ast.walk(t):
@@ -395,7 +524,14 @@ def _one_pass(trees, protected):
                     break
             st = parent.get(call)
             form = None
-            if isinstance(st, ast.Return) and st.value is call:
+            if h.is_gen:
+                # T = list(H(...))
+                outer = st
+                st = parent.get(outer)
+                if isinstance(outer, ast.Call) and isinstance(outer.func, ast.Name) and outer.func.id == "list" and outer.args == [call] and not outer.keywords \
+                        and isinstance(st, ast.Assign) and st.value is outer and len(st.targets) == 1 and _simple_target(st.targets[0]):
+                    form = "listgen"
+            elif isinstance(st, ast.Return) and st.value is call:
                 form = "tail"
             elif isinstance(st, ast.Expr) and st.value is call and h.stmt_form():
                 form = "stmt"
@@ -403,17 +539,10 @@ def _one_pass(trees, protected):
                 form = "assign"
             elif h.expr_form():
                 form = "expr"
-                # not inside a comprehension / lambda of the caller (scoping of the substituted names)
-                x = call
-                while x is not f:
-                    x = parent.get(x)
-                    if isinstance(x, (ast.ListComp, ast.SetComp, ast.DictComp, ast.GeneratorExp)):
-                        form = None
-                        break
             if form is None:
                 ok = False
                 break
-            if form in ("tail", "stmt", "assign"):
+            if form in ("tail", "stmt", "assign", "listgen"):
                 holder = parent.get(st)
                 field = None
                 for fname in ("body", "orelse", "finalbody"):
@@ -430,7 +559,7 @@ def _one_pass(trees, protected):
         # instantiate everything first; apply only if every site works
         plans = []
         for form, call, st, holder, field, f, caller_self in sites:
-            new = _instantiate(h, call, f, caller_self, form, target=st.targets[0] if form == "assign" else None)
+            new = _instantiate(h, call, f, caller_self, form, target=st.targets[0] if form in ("assign", "listgen") else None)
             if new is None:
                 plans = None
                 break
